@@ -29,7 +29,7 @@ CHECK = dict(
           "least one query meets some but not all leaves, so pruning decisions matter (radix phases: tree depth >= 2; pair phases: some but "
           "not all pairs are candidates)."),
     bounds=dict(
-        quick=("col-n2 36^2 boxes x 15 code seqs x 3 planes (+58 maps in the xy plane); col-n3 36^3 x 35 (xy plane); col-n3-xform 9^3 boxes x 4 seqs "
+        quick=("col-n2 36^2 boxes x 15 code seqs x 3 planes (+58 maps in the xy plane for the sequences (0,0), (0,1), (M,M)); col-n3 36^3 x 35 (xy plane); col-n3-xform 9^3 boxes x 4 seqs "
                "x 58 maps; col-n4 6^4 x 70 x 3 axes; col-n5 6^5 x 126 (x axis); col-n4-xform 3^4 x 5 x 58; col-morton 27^n, n<=4; radix-shape "
                "length <= 16 over 5 symbols; runs 126..131, 510..515; bvh2d 36^2, 36^3, 9^4, 9^5; pairs 72^2, 72^3, 12^4 x {private,shared verts} "
                "x eps {0,1/4}; gate n in 1022..1026 x 8 families; kd2d multisets of size 0..12 (3 input orders) and 19 (1 order; 9+9 split: second level on both sides)"),
